@@ -196,6 +196,7 @@ def run(res):
     res.sample({'stream_head': text[:200], 'chunks': len(sched['chunks']), 'status': status})
     stdin_eof(res, work)
     status_after_errors(res, work)
+    all_statuses(res, work)
     utf8_correspondence(res)
     newline_correspondence(res)
     res.rule = ('generated streams (messages + chatter, with and without final newline) written by a helper in 1..n chunks with delays (incl. byte-by-byte and mid-line splits), '
@@ -280,6 +281,35 @@ def status_after_errors(res, work):
                          [r.returncode, (r.stdout + r.stderr)[-400:]], sig={'category': 'exit-status', 'stdin': 'commands with errors'}, theorem='C13_exit_status')
 
 
+def all_statuses(res, work):
+    """the exit status is one byte: every value 0..255 is run (exhaustive, both tiers), with the prompt answered by `q` and with
+    standard input at end-of-file; eighth seeding round: a sentinel value (99 = "not finished yet") compared with the real status"""
+    from concurrent.futures import ThreadPoolExecutor
+    env = dict(os.environ, PYTHONPATH=common.REPO)
+
+    def one(arg):
+        status, stdin = arg
+        r = subprocess.run([sys.executable, '-B', os.path.join(common.REPO, 'main.py'), '-C', '-r', 'sh', '-c', 'echo "[1.000] wl_display@1.sync(new id wl_callback@2)" >&2; exit %d' % status],
+                           input=stdin, capture_output=True, text=True, env=env, timeout=120)
+        return status, stdin, r
+    jobs = [(s, 'q\n') for s in range(256)] + [(s, '') for s in range(256)]
+    with ThreadPoolExecutor(max_workers=common.NPROC) as ex:
+        for status, stdin, r in ex.map(one, jobs):
+            res.evaluations += 1
+            bad = None
+            if r.returncode != status:
+                bad = 'exit status %r instead of %r' % (r.returncode, status)
+            elif 'wl_display@1a.sync' not in r.stdout:
+                bad = 'the message is not displayed'
+            elif 'Could not run' in r.stdout + r.stderr or 'Traceback' in r.stderr:
+                bad = 'a spurious error is reported'
+            if bad:
+                res.disagree('run mode, program exits with status %d: %s' % (status, bad), dict(status=status, stdin=stdin, argv=['sh', '-c', 'exit %d' % status]), status,
+                             [r.returncode, (r.stdout + r.stderr)[-400:]], sig={'category': 'exit-status-sweep', 'stdin': 'q' if stdin else 'EOF'}, theorem='C13_exit_status')
+    res.count('status sweep 0..255 (q / EOF)', len(jobs))
+    res.extra['exit_status_sweep'] = 'exhaustive 0..255, prompt answered with q and stdin at end-of-file'
+
+
 def replay(dis):
     """re-run the recorded process-level case on the current tree; 1 if it still fails"""
     c = dis.get('input') or {}
@@ -304,6 +334,13 @@ def replay(dis):
             print('pipe:', dp[-4:])
             print('run :', dr[-4:], 'status', rr.returncode)
             print('REPRODUCED: ' + ', '.join(bad) if bad else 'not reproduced on the current tree')
+            return 1 if bad else 0
+        if isinstance(c, dict) and 'status' in c and 'argv' in c:
+            r = subprocess.run([sys.executable, '-B', os.path.join(common.REPO, 'main.py'), '-C', '-r'] + c['argv'], input=c.get('stdin') or '',
+                               capture_output=True, text=True, env=dict(os.environ, PYTHONPATH=common.REPO), timeout=120)
+            print('exit status', r.returncode, 'expected', c['status'], (r.stdout + r.stderr)[-300:])
+            bad = r.returncode != c['status'] or 'Could not run' in r.stdout + r.stderr
+            print('REPRODUCED' if bad else 'not reproduced on the current tree')
             return 1 if bad else 0
         if isinstance(c, dict) and 'sched' in c and 'stdin' in c:
             sp = os.path.join(work, 'sched.json')
